@@ -147,6 +147,53 @@ def symbolic_fn(g):
         proj.cleanup()
 
 
+def several_fn(g):
+    """Three experiments under one group in ONE invocation: one index connection, one transaction that later completions
+    commit.  A row a fresh connection sees afterwards must belong to an execution that exited 0 - whatever finished before
+    or after it - and every execution that exited 0 must have its row."""
+    import conductor.cli.run as cli_run
+    from vlib import graphs
+    specs = [TaskSpec("e%d" % i, "run_experiment", [], par=g.flag("par%d" % i)) for i in range(3)]
+    if g.flag("reversed_listing"):
+        grp = TaskSpec("all", "group", [":e2", ":e1", ":e0"])
+    else:
+        grp = TaskSpec("all", "group", [":e0", ":e1", ":e2"])
+    jobs = g.choose("jobs", 2) + 1
+    stop_early = g.flag("stop_early")
+    proj = hrun.Project()
+    try:
+        proj.write_tasks(specs + [grp])
+        sched = graphs.SymSched(g, signals=True, on_spawn=graphs.output_writer)
+        kern = fakeos.Kernel(sched, clock=fakeos.Clock())
+        res = hrun.invoke(cli_run.main, hrun.run_ns(task_identifier="//:all", jobs=jobs, stop_early=stop_early), str(proj.root), kern)
+        D = "par=%s listing=%s jobs=%d stop_early=%s" % ([s.par for s in specs], grp.deps, jobs, stop_early)
+        if isinstance(res.status, str):
+            g.require(False, "index:crash:" + res.status[4:], "%s; %s" % (res.exc, D))
+        byout = {os.path.basename(p.env["COND_OUT"]): p for p in kern.tasks()}
+        rows = proj.index_rows()
+        recorded = set()
+        for ident, ts, commit, dirty in rows:
+            base = "%s.task.%d" % (ident.split(":")[-1], ts)
+            recorded.add(base)
+            p = byout.get(base)
+            g.require(p is not None, "index:row-for-unknown-execution", "%s; %s" % (base, D))
+            g.require(bool(sched.ok(p.pid)), "index:version-recorded-for-failed-run",
+                      "%s recorded although the execution did not exit 0 (outcomes %s, completion order %s); %s" % (
+                          base, {q.name: sched.outcome.get(q.pid) for q in kern.tasks()}, [e[1] for e in kern.events if e[0] == "exit"][:4], D))
+            g.require((proj.out / base).is_dir(), "index:row-without-directory", "%s; %s" % (base, D))
+        nfail = 0
+        for base, p in byout.items():
+            if p.pid in sched.outcome and bool(sched.ok(p.pid)):
+                g.require(base in recorded, "index:successful-run-not-recorded", "%s exited 0 but has no row; %s" % (base, D))
+            else:
+                nfail += 1
+        if nfail and recorded:
+            g.goal("a failed and a successful experiment in one invocation")
+        return {"nontrivial": bool(nfail and recorded), "sample": {"case": D, "rows": sorted(recorded)}}
+    finally:
+        proj.cleanup()
+
+
 def z3_bool(b):
     import z3
     return z3.BoolVal(bool(b))
@@ -301,6 +348,11 @@ def spaces(tier):
                     [list(s) for s in (SEQS[:2] if tier == "quick" else SEQS)], list(ANCHORED)),
                 depth="marker", goals=["command killed midway", "killed while finishing a task", "killed around the index insertion"],
                 outside=["power loss", "kill inside sqlite's commit", "bytecode granularity"])]
+    sp.append(Space("several-experiments-one-invocation", several_fn,
+                    "three experiments under one group in one invocation (each parallelizable or not, both listing orders, --jobs 1..2, --stop-early or not); "
+                    "exit status / fatal signal of every execution symbolic, completion order symbolic: rows seen by a fresh connection afterwards are "
+                    "exactly the executions that exited 0", depth=12, goals=["a failed and a successful experiment in one invocation"],
+                    outside=["more than three experiments per invocation", "jobs > 2"]))
     sp.append(Space("scale-restore-of-many-versions-killed", scale_fn,
                     "18 / 40 recorded versions archived, forgotten and restored; the restore is killed at every 23rd executed line of "
                     "cli/restore.py + execution/version_index.py", depth=2, goals=["restore of many versions killed midway"]))
